@@ -68,14 +68,14 @@ theorem submitLoop_bytes (d : Bool) (fuel : Nat) (a0 : ANode) (items0 : List Ite
 
 /-- an entry of the DA double in bytes is the blob of a stored block: the wire encoding of its signed header, or — for a
 block with transactions — of its data signed with the key of its header's signer -/
-def IsBlobOf (s : Store) (e : Nat × Bool × Nat × Bytes) : Prop :=
-  ∃ k b, k ≤ s.height ∧ s.getBlock k = some b ∧
+def IsBlobOf (lo : Nat) (s : Store) (e : Nat × Bool × Nat × Bytes) : Prop :=
+  ∃ k b, lo ≤ k ∧ k ≤ s.height ∧ s.getBlock k = some b ∧
     ((e.2.1 = false ∧ e.2.2.1 = b.sh.hdr.height ∧ e.2.2.2 = hdrBlob b) ∨
      (e.2.1 = true ∧ e.2.2.1 = dataHeight b ∧ b.data.txs ≠ [] ∧ e.2.2.2 = dataBlob b))
 
 theorem headersIter_bytes (a : ANode) (script : List DAAns) :
     (a.daBlobs = a.daBytes.map bproj → (headersIter a script).1.daBlobs = (headersIter a script).1.daBytes.map bproj) ∧
-    ∀ e ∈ (headersIter a script).1.daBytes, e ∈ a.daBytes ∨ IsBlobOf a.n.store e := by
+    ∀ e ∈ (headersIter a script).1.daBytes, e ∈ a.daBytes ∨ IsBlobOf (a.n.hdrWm + 1) a.n.store e := by
   rcases headersIter_cases a script with ⟨h, _⟩ | ⟨h, _⟩ | ⟨bs, _, hbs, h⟩
   · rw [h]; exact ⟨id, fun e he => Or.inl he⟩
   · rw [h]; exact ⟨id, fun e he => Or.inl he⟩
@@ -84,12 +84,12 @@ theorem headersIter_bytes (a : ANode) (script : List DAAns) :
     refine ⟨hi.aligned, fun e he => ?_⟩
     rcases hi.entries e he with q | ⟨it, hit, q1, q2, q3⟩
     · exact Or.inl q
-    · obtain ⟨k, b, _, k2, hb, rfl⟩ := hdrItems_mem hbs it hit
-      exact Or.inr ⟨k, b, k2, hb, Or.inl ⟨q1, q2, q3⟩⟩
+    · obtain ⟨k, b, k1, k2, hb, rfl⟩ := hdrItems_mem hbs it hit
+      exact Or.inr ⟨k, b, k1, k2, hb, Or.inl ⟨q1, q2, q3⟩⟩
 
 theorem dataIter_bytes (a : ANode) (script : List DAAns) :
     (a.daBlobs = a.daBytes.map bproj → (dataIter a script).1.daBlobs = (dataIter a script).1.daBytes.map bproj) ∧
-    ∀ e ∈ (dataIter a script).1.daBytes, e ∈ a.daBytes ∨ IsBlobOf a.n.store e := by
+    ∀ e ∈ (dataIter a script).1.daBytes, e ∈ a.daBytes ∨ IsBlobOf (a.n.dataWm + 1) a.n.store e := by
   rcases dataIter_cases a script with ⟨h, _⟩ | ⟨h, _⟩ | ⟨bs, _, _, _, h⟩ | ⟨bs, _, hbs, _, h⟩
   · rw [h]; exact ⟨id, fun e he => Or.inl he⟩
   · rw [h]; exact ⟨id, fun e he => Or.inl he⟩
@@ -105,8 +105,8 @@ theorem dataIter_bytes (a : ANode) (script : List DAAns) :
     refine ⟨hi.aligned, fun e he => ?_⟩
     rcases hi.entries e he with q | ⟨it, hit, q1, q2, q3⟩
     · exact Or.inl q
-    · obtain ⟨k, b, _, k2, hb, hne, rfl⟩ := dataItems_mem hbs it hit
-      exact Or.inr ⟨k, b, k2, hb, Or.inr ⟨q1, q2, hne, q3⟩⟩
+    · obtain ⟨k, b, k1, k2, hb, hne, rfl⟩ := dataItems_mem hbs it hit
+      exact Or.inr ⟨k, b, k1, k2, hb, Or.inr ⟨q1, q2, hne, q3⟩⟩
 
 theorem includerPass_daBytes (fuel : Nat) (a : ANode) (ws : List SW) : (includerPass fuel a ws).1.daBytes = a.daBytes := by
   induction fuel generalizing a ws with
@@ -123,40 +123,41 @@ theorem includerPass_daBytes (fuel : Nat) (a : ANode) (ws : List SW) : (includer
 
 /-- the invariant of reachable nodes: the byte view of the DA double is aligned with its summary, and every entry is the
 blob of a stored block -/
-structure BY (a : ANode) : Prop where
+structure BY (c : Cfg) (a : ANode) : Prop where
   aligned : a.daBlobs = a.daBytes.map bproj
-  entries : ∀ e ∈ a.daBytes, IsBlobOf a.n.store e
+  entries : ∀ e ∈ a.daBytes, IsBlobOf c.initialHeight a.n.store e
 
-theorem IsBlobOf.mono {s s' : Store} {e : Nat × Bool × Nat × Bytes} (h : IsBlobOf s e) (hh : s.height ≤ s'.height)
-    (hb : ∀ k, k ≤ s.height → s'.getBlock k = s.getBlock k) : IsBlobOf s' e := by
-  obtain ⟨k, b, k1, k2, r⟩ := h
-  exact ⟨k, b, by omega, by rw [hb k k1]; exact k2, r⟩
+theorem IsBlobOf.mono {lo lo' : Nat} {s s' : Store} {e : Nat × Bool × Nat × Bytes} (h : IsBlobOf lo s e) (hl : lo' ≤ lo)
+    (hh : s.height ≤ s'.height) (hb : ∀ k, k ≤ s.height → s'.getBlock k = s.getBlock k) : IsBlobOf lo' s' e := by
+  obtain ⟨k, b, k0, k1, k2, r⟩ := h
+  exact ⟨k, b, by omega, by omega, by rw [hb k k1]; exact k2, r⟩
 
-theorem BY.step {c : Cfg} {a : ANode} (hinv : Inv c a.n) (y : BY a) (act : Act) : BY (stepA c a act) := by
+theorem BY.step {c : Cfg} {a : ANode} (hinv : Inv c a.n) (hlow : c.initialHeight ≤ a.n.hdrWm + 1)
+    (hdlow : c.initialHeight ≤ a.n.dataWm + 1) (y : BY c a) (act : Act) : BY c (stepA c a act) := by
   cases act with
   | produce r e =>
     have hs := publish_store hinv r e
-    refine ⟨y.aligned, fun x hx => (y.entries x hx).mono ?_ hs.2⟩
+    refine ⟨y.aligned, fun x hx => (y.entries x hx).mono (Nat.le_refl _) ?_ hs.2⟩
     show a.n.store.height ≤ (publish c a.n r e).1.store.height
     rcases hs.1 with q | q <;> omega
   | subH s =>
     obtain ⟨_, hi, _⟩ := headersIter_iter a s
     obtain ⟨h1, h2⟩ := headersIter_bytes a s
     refine ⟨h1 y.aligned, fun x hx => ?_⟩
-    have tr : IsBlobOf a.n.store x → IsBlobOf (headersIter a s).1.n.store x := fun q =>
-      q.mono (by rw [hi.frame.height]; exact Nat.le_refl _) (fun k _ => hi.frame.getBlock k)
+    have tr : ∀ lo, c.initialHeight ≤ lo → IsBlobOf lo a.n.store x → IsBlobOf c.initialHeight (headersIter a s).1.n.store x :=
+      fun lo hlo q => q.mono hlo (by rw [hi.frame.height]; exact Nat.le_refl _) (fun k _ => hi.frame.getBlock k)
     rcases h2 x hx with q | q
-    · exact tr (y.entries x q)
-    · exact tr q
+    · exact tr _ (Nat.le_refl _) (y.entries x q)
+    · exact tr _ hlow q
   | subD s =>
     obtain ⟨_, hi, _⟩ := dataIter_iter a s
     obtain ⟨h1, h2⟩ := dataIter_bytes a s
     refine ⟨h1 y.aligned, fun x hx => ?_⟩
-    have tr : IsBlobOf a.n.store x → IsBlobOf (dataIter a s).1.n.store x := fun q =>
-      q.mono (by rw [hi.frame.height]; exact Nat.le_refl _) (fun k _ => hi.frame.getBlock k)
+    have tr : ∀ lo, c.initialHeight ≤ lo → IsBlobOf lo a.n.store x → IsBlobOf c.initialHeight (dataIter a s).1.n.store x :=
+      fun lo hlo q => q.mono hlo (by rw [hi.frame.height]; exact Nat.le_refl _) (fun k _ => hi.frame.getBlock k)
     rcases h2 x hx with q | q
-    · exact tr (y.entries x q)
-    · exact tr q
+    · exact tr _ (Nat.le_refl _) (y.entries x q)
+    · exact tr _ hdlow q
   | incl =>
     have hi : PassInv a (includerIter a).1 (includerIter a).2 :=
       includerPass_inv (a.n.store.height + 1) a a [] (PassInv.init a)
@@ -166,7 +167,7 @@ theorem BY.step {c : Cfg} {a : ANode} (hinv : Inv c a.n) (y : BY a) (act : Act) 
       fun x hx => ?_⟩
     have hx' : x ∈ (includerIter a).1.daBytes := hx
     rw [hby] at hx'
-    exact (y.entries x hx').mono (by show a.n.store.height ≤ (includerIter a).1.n.store.height
-                                     rw [hi.frame.height]; exact Nat.le_refl _) (fun k _ => hi.frame.getBlock k)
+    have hh : a.n.store.height ≤ (includerIter a).1.n.store.height := by rw [hi.frame.height]; exact Nat.le_refl _
+    exact (y.entries x hx').mono (Nat.le_refl _) hh (fun k _ => hi.frame.getBlock k)
 
 end Submit
